@@ -4,13 +4,37 @@ import (
 	"io"
 )
 
+// hashingWriter hands every Write to the target and feeds the hashers exactly
+// the bytes the target accepted: after a short write (n < len(p), with an
+// error) the hashers have seen p[:n], so that length and digests describe
+// what went through - whether the caller gives up or carries on with p[n:].
+type hashingWriter struct {
+	target  io.Writer
+	hashers []io.Writer
+}
+
+func (w *hashingWriter) Write(p []byte) (int, error) {
+	n, err := w.target.Write(p)
+	if n > len(p) {
+		n = len(p)
+	}
+	if n > 0 {
+		for _, hasher := range w.hashers {
+			hasher.Write(p[:n])
+		}
+	}
+	if err == nil && n < len(p) {
+		err = io.ErrShortWrite
+	}
+	return n, err
+}
+
 func NewHasherWriter(hash string, target io.Writer) (io.Writer, *Hasher, error) {
 	hw, err := NewHasher(hash)
 	if err != nil {
 		return nil, nil, err
 	}
-	endWriter := io.MultiWriter(target, hw)
-	return endWriter, hw, nil
+	return &hashingWriter{target: target, hashers: []io.Writer{hw}}, hw, nil
 }
 
 func NewHasherWriters(hashes []string, target io.Writer) (io.Writer, []*Hasher, error) {
@@ -26,8 +50,7 @@ func NewHasherWriters(hashes []string, target io.Writer) (io.Writer, []*Hasher, 
 		writers = append(writers, hw)
 	}
 
-	endWriter := io.MultiWriter(append(writers, target)...)
-	return endWriter, hashers, nil
+	return &hashingWriter{target: target, hashers: writers}, hashers, nil
 }
 
 func NewHasherReader(hash string, target io.Reader) (io.Reader, *Hasher, error) {
